@@ -67,7 +67,7 @@ Proof.
     + destruct (String.eqb_spec y z); [congruence|reflexivity].
     + destruct (String.eqb y z); auto.
 Qed.
-Lemma aget_degrade : forall x a, aget x (degrade a) = match aget x a with Deep => Ext | l => l end.
+Lemma aget_degrade : forall x a, aget x (degrade a) = match aget x a with Deep => Shal | l => l end.
 Proof.
   intros x a. induction a as [|[y m] a IH]; simpl; [reflexivity|].
   destruct (String.eqb x y); auto.
@@ -381,6 +381,9 @@ Proof.
     eapply from_vars_clean; eauto. intros y Hy. eapply alias_all_deep; eauto.
   - (* alias, immutable *)
     split; [|constructor]. apply inv_upd; auto. discriminate.
+  - (* copy of a variable: the same object, the same level *)
+    split; [|constructor]. apply inv_upd; auto.
+    intros r Hr. subst v. exact (Hvars y r H).
   - (* store *)
     destruct (Hvars x r H) as [Hr Hsx].
     assert (Hl : owned_at h l = false).
@@ -575,6 +578,36 @@ Corollary safe_sound_params_bound : forall f h e0 h' e' w,
   safe f = true -> params_bound f e0 h -> closed h ->
   crun (af_body f) h e0 h' e' w -> Forall (fun l => owned_at h' l = false) w.
 Proof. intros. eapply safe_sound; eauto. Qed.
+
+
+(* the same under an assumption on the parameters (summaries): the initial state must satisfy it *)
+Theorem safe_s_sound : forall s h e0 h' e' w,
+  safe_s s = true ->
+  inv (senv s) h e0 ->
+  crun (af_body (sf_fun s)) h e0 h' e' w ->
+  Forall (fun l => owned_at h' l = false) w.
+Proof.
+  intros s h e0 h' e' w Hsafe Hinv Hr. unfold safe_s in Hsafe.
+  destruct (arun (senv s) (af_body (sf_fun s))) as [a' ok] eqn:E. simpl in Hsafe. subst ok.
+  exact (proj2 (arun_sound _ _ _ _ _ _ _ _ E Hinv Hr)).
+Qed.
+
+(* spelled out: a closed heap; every bound variable lies in the heap; a parameter assumed [Deep] reaches
+   nothing owned by the caller, one assumed [Shal] is itself not owned; nothing is assumed of the others *)
+Corollary safe_s_sound_spelled : forall s h e0 h' e' w,
+  safe_s s = true ->
+  (forall l o, nth_error h l = Some o -> forall k, In k (kids o) -> k < List.length h) ->
+  (forall x r, cget x e0 = Some (Some r) ->
+     r < List.length h /\
+     (aget x (senv s) = Deep -> forall k, reach h r k -> owned_at h k = false) /\
+     (aget x (senv s) = Shal -> owned_at h r = false)) ->
+  crun (af_body (sf_fun s)) h e0 h' e' w ->
+  Forall (fun l => owned_at h' l = false) w.
+Proof.
+  intros s h e0 h' e' w Hs Hc Hb Hr. eapply safe_s_sound; eauto.
+  apply inv_spelled. split; [exact Hc|exact Hb].
+Qed.
+Print Assumptions safe_s_sound_spelled.
 
 Print Assumptions safe_sound_full.
 Print Assumptions safe_sound.
